@@ -78,12 +78,20 @@ pub fn family(rng: &mut Rng) -> (Vec<String>, &'static str) {
     }
     if which == 5 {
         // an attribute shorthand applied to a scoped variable that a later stanza defines
+        // ... or used inside a list / set comprehension, a list / set literal, a call
+        let user = *rng.pick(&[
+            "(module) @m { node n attr (n) zz_tag = @m.zz_name }",
+            "(module) @m { node n attr (n) zz_tag = @m.zz_name, vals = { @m.zz_name for q in [1, 2] } }",
+            "(module) @m { node n attr (n) vals = [ (format \"{}{}\" q @m.zz_name) for q in [1, 2] ] }",
+            "(module) @m { node n attr (n) vals = { (format \"{}\" @m.zz_name) for q in [1] }, lit = { @m.zz_name, \"y\" } }",
+            "(module) @m { node n let v = [ @m.zz_name, \"z\" ] attr (n) vals = v, len = (length v) }",
+        ]);
         let st = vec![
             "(module) @m { let @m.zz_name = \"x\" }".to_string(),
-            "(module) @m { node n attr (n) zz_tag = @m.zz_name }".to_string(),
+            user.to_string(),
             "(module) @m { node k attr (k) zz_tag = (source-text @m) }".to_string(),
         ];
-        return (std::iter::once("__HEADER__attribute zz_tag = v => zz_t = v, zz_len = [v]\n".to_string()).chain(st.into_iter()).collect(), "shorthand_on_forward_scoped_variable");
+        return (std::iter::once("__HEADER__attribute zz_tag = v => zz_t = v, zz_len = [v]\n".to_string()).chain(st.into_iter()).collect(), "forward_scoped_variable_in_shorthand_or_comprehension");
     }
     if which < 2 {
         let k = 2 + rng.below(2);
